@@ -129,6 +129,11 @@ for _place in ("module", "function", "block"):
     # declared by unpacking: `const [cv, cw9] = [5, 7]`
     _d("const_unpacked@" + _place, "int", _place, "const", unpacked=True)
 _d("const_unpacked_str@module", "str", "module", "const", unpacked=True)
+# the name is an ordinary variable first and is then declared `const` (same type) in the same scope: whether the
+# re-declaration itself is refused (pinned tree) or accepted, nothing may write the name afterwards
+for _place in ("module", "function", "block"):
+    _d("const_over_variable@" + _place, "int", _place, "const_notwin", predecl=True)
+_d("const_over_variable_str@module", "str", "module", "const_notwin", predecl=True)
 _d("export_const@module", "int", "module", "const", typed=True, export=True)
 _d("const_optint@module", "optint", "module", "const", typed=True)
 _d("const_optint@function", "optint", "function", "const", typed=True)
@@ -432,6 +437,8 @@ def build(decl, form, ctx, const=True, write=True):
     # declaration
     if how in ("const", "const_notwin"):
         flag = ("export " if decl["export"] else "") + ("const " if const else "")
+        if decl.get("predecl"):
+            body.append("%s = %s" % (name, k["init"]))
         if decl.get("unpacked"):
             body.append("%s[%s, cw9] = [%s, %s]" % (flag, name, k["init"], k["new"]))
         elif decl["typed"]:
@@ -573,7 +580,7 @@ def one_case(item, flip=None):
                 res["alias_element_write_changed_member"] = after
         return res
     if verdict == "rejected":
-        on_line = any(f == "main.ms" and ln == wline for f, ln in poss)
+        on_line = any(f == "main.ms" and ln == wline for f, ln in poss) or bool(decl.get("predecl"))
         res["on_write_line"] = on_line
         if not on_line:
             res["elsewhere"] = {"case": res["case"], "write_line": wline, "diagnostics": poss,
@@ -753,7 +760,93 @@ def one_shadow(item):
     return res
 
 
+# ----------------------------------------------------------------------------- a caller's const of the same name
+# A module-level function legally updates a module-level VARIABLE `cv`; it is called from a function that owns a
+# `const cv` of its own.  The update must reach the module variable, never the caller's const (names resolve
+# lexically, whatever syntactic position the only mention of `cv` sits in).
+FOREIGN_FORMS = ["opassign", "modify", "index_opassign", "unwrap_assign", "field_assign"]
+FOREIGN_POS = ["plain", "then", "else", "elseif", "final_else", "while_body", "from_body", "nested_closure"]
+
+
+def foreign_cases():
+    return [(f, p) for f in FOREIGN_FORMS for p in FOREIGN_POS]
+
+
+def build_foreign(item):
+    form, pos = item
+    pre = []
+    if form == "opassign":
+        decl, cdecl, w, shown_mod, shown_const = "cv = 1", "const cv = 5", "cv += d9", "6", "5"
+    elif form == "modify":
+        decl, cdecl, w, shown_mod, shown_const = "cv = 1", "const cv = 5", "modify cv = cv + d9", "6", "5"
+    elif form == "index_opassign":
+        decl, cdecl, w, shown_mod, shown_const = "cv: [int...] = [1]", "const cv: [int...] = [5]", "cv[0] += d9", "[6]", "[5]"
+    elif form == "unwrap_assign":
+        decl, cdecl, w, shown_mod, shown_const = "cv: int? = nil", "const cv: int? = 5", "t9 = cv ?= od9", "3", "5"
+        pre = ["od9: int? = d9"]
+    else:
+        pre = []
+        decl, cdecl, w, shown_mod, shown_const = "cv = K9(1)", "const cv = K9(5)", "cv.f = cv.f + d9", "6", "5"
+    ind = lambda ls: ["  " + l for l in ls]
+    if pos == "plain":
+        body = [w]
+    elif pos == "then":
+        body = ["if d9 > 0 {"] + ind([w]) + ["}"]
+    elif pos == "else":
+        body = ["if d9 < 0 {", "  u9 = 0", "} else {"] + ind([w]) + ["}"]
+    elif pos == "elseif":
+        body = ["if d9 < 0 {", "  u9 = 0", "} else if d9 > 0 {"] + ind([w]) + ["}"]
+    elif pos == "final_else":
+        body = ["if d9 < 0 {", "  u9 = 0", "} else if d9 > 100 {", "  u9 = 1", "} else {"] + ind([w]) + ["}"]
+    elif pos == "while_body":
+        body = ["k9 = 0", "while k9 < 1 {"] + ind([w, "k9 += 1"]) + ["}"]
+    elif pos == "from_body":
+        body = ["from 0 to 1 {"] + ind([w]) + ["}"]
+    else:
+        body = ["in9 = fn() {"] + ind([w]) + ["}", "in9()"]
+    show = "cv.f" if form == "field_assign" else "cv"
+    lines = ['print "%s"' % RUN]
+    if form == "field_assign":
+        lines += CLASS_K9
+    lines += [decl, "w9 = fn(d9: int) {"] + ind(pre + body) + ["}",
+              "h9 = fn() {"] + ind([cdecl, "w9(2)", "w9(3)", 'print "%s"' % VAL, "print " + show]) + ["}",
+              "h9()", 'print "%s"' % LOCAL, "print " + show]
+    return {"main.ms": "\n".join(lines) + "\n"}, shown_const, shown_mod
+
+
+def one_foreign(item):
+    files, shown_const, shown_mod = build_foreign(item)
+    r, _, _ = core.run_program(files, cpu=10)
+    res = {"foreign": "%s/%s" % item, "runs": 1}
+    if r.cls in ("wall_timeout", "cpu_timeout", "spawn_error"):
+        res["inconclusive"] = "%s: %s" % (res["foreign"], r.cls)
+        return res
+    ls = r.lines()
+    if RUN not in ls:
+        res["inconclusive"] = "caller-const case %s rejected by the compiler (legal program expected): %s" % (
+            res["foreign"], r.out[-400:])
+        return res
+    const_seen, mod_seen = after_marker(ls, VAL), after_marker(ls, LOCAL)
+    problems = []
+    if r.cls != "ok":
+        problems.append("run_failed")
+    else:
+        if const_seen != shown_const:
+            problems.append("const_changed")
+        if mod_seen != shown_mod:
+            problems.append("variable_not_updated")
+    if problems:
+        res["problem"] = "+".join(problems)
+        res["witness"] = {"case": "callers_const:" + res["foreign"], "files": files,
+                          "expected": {"callers_const": shown_const, "module_variable": shown_mod},
+                          "observed": {"callers_const": const_seen, "module_variable": mod_seen},
+                          "value_printed_after_write": const_seen, "initializer_shown": shown_const, "run": r.brief()}
+    return res
+
+
 def work(item):
+    if item[0] == "foreign":
+        return one_foreign(item[1])
     if item[0] == "case":
         return one_case(item[1])
     if item[0] == "shadow":
@@ -765,9 +858,11 @@ def run(ctx):
     out = core.Outcome()
     out.level = "fault_enumeration"
     cases, dropped = product()
-    controls = sorted({(c[0], c[2]) for c in cases})
+    # (no write-free control for const_over_variable: the pinned compiler refuses the re-declaration itself)
+    controls = sorted({(c[0], c[2]) for c in cases if not DECL_BY_ID[c[0]].get("predecl")})
     shadows = shadow_cases()
-    items = [("case", c) for c in cases] + [("control", c) for c in controls] + [("shadow", c) for c in shadows]
+    items = [("case", c) for c in cases] + [("control", c) for c in controls] + [("shadow", c) for c in shadows] + \
+        [("foreign", c) for c in foreign_cases()]
     results = core.pmap(work, items, chunksize=8)
     cov = {"cases": len(cases), "controls": len(controls), "dropped_by_applicability_table": len(dropped),
            "rejected_as_required": 0, "rejected_on_write_line": 0, "twins_run": 0, "twins_accepted_and_changed": 0,
@@ -783,6 +878,21 @@ def run(ctx):
         out.evaluations += res["runs"]
         if "inconclusive" in res:
             out.inconclusive.append(res["inconclusive"])
+            continue
+        if kind == "foreign":
+            cov["callers_const_cases"] = cov.get("callers_const_cases", 0) + 1
+            out.distinct.add(core.h(["foreign", item]))
+            if "problem" in res:
+                key = ("callers_const", item[0], item[1])
+                fk = (key, res["problem"])
+                if fk not in failing:
+                    failing[fk] = (res["witness"], [])
+                    cells.setdefault(key, [0, 0])
+                failing[fk][1].append("%s -> caller's const %s, module variable %s" % (
+                    res["foreign"], res["witness"]["observed"]["callers_const"], res["witness"]["observed"]["module_variable"]))
+            else:
+                cov["callers_const_cases_ok"] = cov.get("callers_const_cases_ok", 0) + 1
+            cells_total_shadow[0] += 1
             continue
         if kind == "shadow":
             cov["shadowing_local_cases"] = cov.get("shadowing_local_cases", 0) + 1
